@@ -175,3 +175,65 @@ func (c *Ctx) fieldAnywhere(pkgPrefix, field string) *types.Var {
 	}
 	return nil
 }
+
+// rulesC16buf: telemetry batch buffers handed to a (possibly queued) mutation
+// are not reused in place.
+func (c *Ctx) rulesC16buf() {
+	c.rule("C16.buf", "a package-level batch buffer of the debugger server whose contents were handed to a mutation's args in a function is released by assigning a fresh value (nil), never truncated for reuse (x = x[:0]): the mutation may still be queued and would see the next batch overwrite it")
+	n := 0
+	for _, f := range c.Funcs {
+		if topFunc(f).Pkg == nil || relPkg(topFunc(f).Pkg.Pkg.Path()) != pd+"/server" {
+			continue
+		}
+		for _, b := range f.Blocks {
+			for _, ins := range b.Instrs {
+				st, ok := ins.(*ssa.Store)
+				if !ok {
+					continue
+				}
+				g, ok := st.Addr.(*ssa.Global)
+				if !ok {
+					continue
+				}
+				if _, isSl := g.Type().(*types.Pointer).Elem().Underlying().(*types.Slice); !isSl {
+					continue
+				}
+				// was the global's value handed to a call (directly or inside a struct literal) in this function?
+				handed := false
+				for _, b2 := range f.Blocks {
+					for _, in2 := range b2.Instrs {
+						u, ok := in2.(*ssa.UnOp)
+						if !ok || u.X != ssa.Value(g) || u.Referrers() == nil {
+							continue
+						}
+						for _, r := range *u.Referrers() {
+							if s2, ok := r.(*ssa.Store); ok {
+								if _, isField := s2.Addr.(*ssa.FieldAddr); isField {
+									handed = true
+								}
+							}
+							if _, ok := r.(ssa.CallInstruction); ok {
+								handed = true
+							}
+						}
+					}
+				}
+				if !handed {
+					continue
+				}
+				n++
+				reuse := false
+				if sl, ok := st.Val.(*ssa.Slice); ok {
+					if u, ok := sl.X.(*ssa.UnOp); ok && u.X == ssa.Value(g) {
+						reuse = true
+					}
+				}
+				c.check(!reuse, "C16.buf", fmt.Sprintf("%s releases %s with a fresh value", funcKey(f), g.Name()), ins.Pos(),
+					g.Name()+" is truncated in place after being handed to a mutation: a still-queued ClientMsg aliases the buffer and is overwritten by the next batch (records lost / duplicated, N-th record is no longer the N-th transition)")
+			}
+		}
+	}
+	if n < 2 {
+		c.undecided(fmt.Sprintf("C16.buf: only %d hand-over/reset sites found", n))
+	}
+}
